@@ -73,9 +73,6 @@ func (r *FeatureLocal) AddFunctionType(function model.FunctionType, read, write 
 	if r.role != model.RoleTypeServer && r.role != model.RoleTypeSpecial {
 		return
 	}
-	if r.operations[function] != nil {
-		return
-	}
 	writePartial := false
 	if write {
 		// partials are not supported on all features and functions, so check if this function supports it
@@ -83,8 +80,15 @@ func (r *FeatureLocal) AddFunctionType(function model.FunctionType, read, write 
 			writePartial = fctData.SupportsPartialWrite()
 		}
 	}
+
+	r.muxOperations.Lock()
+	if r.operations[function] != nil {
+		r.muxOperations.Unlock()
+		return
+	}
 	// partial reads are currently not supported!
 	r.operations[function] = NewOperations(read, false, write, writePartial)
+	r.muxOperations.Unlock()
 
 	if r.role == model.RoleTypeServer &&
 		r.ftype == model.FeatureTypeTypeDeviceDiagnosis &&
@@ -97,7 +101,7 @@ func (r *FeatureLocal) AddFunctionType(function model.FunctionType, read, write 
 func (r *FeatureLocal) Functions() []model.FunctionType {
 	var fcts []model.FunctionType
 
-	for key := range r.operations {
+	for key := range r.Operations() {
 		fcts = append(fcts, key)
 	}
 
@@ -860,7 +864,7 @@ func (r *FeatureLocal) functionData(function model.FunctionType) api.FunctionDat
 
 func (r *FeatureLocal) Information() *model.NodeManagementDetailedDiscoveryFeatureInformationType {
 	var funs []model.FunctionPropertyType
-	for fun, operations := range r.operations {
+	for fun, operations := range r.Operations() {
 		var functionType = model.FunctionType(fun)
 		sf := model.FunctionPropertyType{
 			Function:           &functionType,
